@@ -1,4 +1,9 @@
-"""setup and self-test (negative controls) for the pc-keyboard verification machinery."""
+"""setup and self-test (negative controls) for the pc-keyboard verification machinery.
+
+The self-test demonstrates the binding between specification and code: for each conformance
+mechanism it corrupts ONE field of an artefact extracted from the real code (or drops one recorded
+event) and requires TLC to reject it, and it requires the uncorrupted artefact to be accepted.
+"""
 import glob, json, os, subprocess, sys
 import pkverif
 from pkverif import log
@@ -24,6 +29,118 @@ def setup():
     return selftest()
 
 
+def _lines(path):
+    with open(path) as f:
+        return [json.loads(l) for l in f]
+
+
+def _write(path, recs):
+    with open(path, "w") as f:
+        for r in recs:
+            f.write(json.dumps(r, separators=(",", ":")) + "\n")
+
+
 def selftest():
-    log("selftest: (negative controls are added as the mechanisms are built)")
-    return 0
+    try:
+        ctx = pkverif.Ctx("quick", 1)
+        d = os.path.join(pkverif.WORK, "selftest")
+        os.makedirs(d, exist_ok=True)
+        cases = []
+
+        # (G) scancode graph: one output of one transition changed (F9 -> F10 on Set 2 code 0x01)
+        g = _lines(ctx.art("g_set2"))
+        g[0]["out"][1] = ["ev", "F10", "Down"]
+        p = os.path.join(d, "g_set2_corrupt.ndjson")
+        _write(p, g)
+        cases.append(("graph record: one output changed", "conf_set2", {"GRAPH": p}, "C01"))
+
+        # (G) scancode graph: one successor redirected (after E0, byte 0x14 leads back to the E0 state)
+        g = _lines(ctx.art("g_set2"))
+        e0 = g[0]["post"][0xE0]
+        g[e0 - 1]["post"][0x14] = e0
+        p = os.path.join(d, "g_set2_corrupt2.ndjson")
+        _write(p, g)
+        cases.append(("graph record: one successor changed", "props_scan", {"GRAPH2": p}, "C07"))
+
+        # (G) frame graph: the 11th-bit result of one frame changed
+        g = _lines(ctx.art("g_frame"))
+        done = False
+        for r in g:
+            for a in (0, 1):
+                if r["out"][a] != ["none"] and not done:
+                    r["out"][a] = ["byte", 0] if r["out"][a] != ["byte", 0] else ["byte", 1]
+                    done = True
+        p = os.path.join(d, "g_frame_corrupt.ndjson")
+        _write(p, g)
+        cases.append(("frame graph: one frame verdict changed", "conf_frame", {"GRAPH": p}, "C06"))
+
+        # (T) words table: one word's verdict changed
+        w = _lines(ctx.art("t_words"))
+        w[4]["r"][7] = ["err", "ParityError"] if w[4]["r"][7] != ["err", "ParityError"] else ["byte", 3]
+        p = os.path.join(d, "t_words_corrupt.ndjson")
+        _write(p, w)
+        cases.append(("words table: one verdict changed", "conf_words", {"WORDS": p}, "C05"))
+
+        # (T) layout table: one cell changed (Us104Key, key A, no modifiers: 'a' -> 'b')
+        t = _lines(ctx.art("t_layouts"))
+        for r in t:
+            if r["obj"] == "Us104Key" and r["k"] == "A" and r["h"] == "Ignore":
+                r["o"][16] = 98
+        p = os.path.join(d, "t_layouts_corrupt.ndjson")
+        _write(p, t)
+        cases.append(("layout table: one cell changed", "conf_layouts", {"TABLE": p}, "C03"))
+
+        # (G) event graph: one consulted-modifiers field changed
+        g = _lines(ctx.art("g_event"))
+        for idx, q in enumerate(g[5]["q"]):
+            if q[0] == "q":
+                g[5]["q"][idx] = [q[0], q[1], q[2], q[3] ^ 1, q[4]]
+                break
+        p = os.path.join(d, "g_event_corrupt.ndjson")
+        _write(p, g)
+        cases.append(("event graph: modifiers shown to the layout changed in one transition", "conf_event", {"GRAPH": p}, "C14"))
+
+        # (G) composite graph: one result changed
+        g = _lines(ctx.art("g_kb2_mixedq"))
+        g[100]["out"][3] = ["err", "BadStopBit"]
+        p = os.path.join(d, "g_kb2_corrupt.ndjson")
+        _write(p, g)
+        cases.append(("composite graph: one result changed", "conf_kb2_mixedq", {"GRAPH": p}, "C18"))
+
+        # (V) trace: one returned value corrupted / one event dropped
+        tr = _lines(ctx.art("tr_noise_kb2"))
+        t1 = [dict(x) for x in tr]
+        k = next(i for i, x in enumerate(t1) if i > 50 and x["in"][0] == "byte")
+        t1[k]["ret"] = ["ev", "F1", "Down"] if t1[k]["ret"] != ["ev", "F1", "Down"] else ["none"]
+        p = os.path.join(d, "tr_corrupt.ndjson")
+        _write(p, t1)
+        cases.append(("trace: one logged return value corrupted", "trace_kb2", {"TRACE": p}, "C18"))
+        k = next(i for i, x in enumerate(tr) if i > 50 and x["in"][0] == "bit")
+        t2 = tr[:k] + tr[k + 1:]
+        p = os.path.join(d, "tr_dropped.ndjson")
+        _write(p, t2)
+        cases.append(("trace: one recorded event dropped", "trace_kb2", {"TRACE": p}, "C18"))
+
+        failed = 0
+        for what, job, env, pid in cases:
+            spec = pkverif.JOBS[job]
+            try:
+                r = pkverif.run_tlc(ctx, "selftest_" + job, spec, env_override=env)
+                n = sum(1 for rec in r["records"] if pkverif.relevant(rec, pid))
+            except pkverif.ToolError as e:
+                log("selftest: %-70s TOOL ERROR %s" % (what, str(e)[:300]))
+                failed += 1
+                continue
+            ok = n > 0
+            log("selftest: %-70s %s (%d record(s) for %s via %s)" % (what, "rejected" if ok else "NOT REJECTED", n, pid, job))
+            failed += 0 if ok else 1
+        import shutil
+        shutil.rmtree(d, ignore_errors=True)
+        if failed:
+            log("selftest: %d negative control(s) failed" % failed)
+            return 2
+        log("selftest: all %d negative controls rejected" % len(cases))
+        return 0
+    except pkverif.ToolError as e:
+        log("TOOL-ERROR:", e)
+        return 2
